@@ -667,6 +667,9 @@ func (a *asset) consolidateAsset(logger *slog.Logger) error {
 func (a *asset) getRefSegMeta(nrOrTime int, cfg *ResponseConfig, nowMS int) (ref segMeta, err error) {
 	switch cfg.liveMPDType() {
 	case segmentNumber, timeLineNumber:
+		if nrOrTime < cfg.getStartNr() {
+			return ref, errNotFound
+		}
 		nr := uint32(nrOrTime)
 		ref, err = findSegMetaFromNr(a, a.refRep, nr, cfg, nowMS)
 	case timeLineTime:
